@@ -21,6 +21,12 @@ RULE = ("TLC enumerates (a) every polyline of 1..4 segments over the steps (1,0)
         "3-4-5, 5-12-13, 8-15-17 (scaled), non-parallel (wedge) boundaries, arc lengths on the 1/2, 1/4, 1/8 grid; "
         "merges of such lanes (1..6 segments per part, uneven spacing); chains of 2..4 joined lanes merged by "
         "all_lanelets_by_merging_successors/predecessors_from_lanelet, each result treated as a lanelet; digraphs on 5-6 lanelets with lengths 1..4 and ranges 1..15/100. "
+        "(d) histories: TLC enumerates every sequence of <= 2 (thorough 3) tokens from {translate_rotate x2, "
+        "LaneletNetwork.translate_rotate, center/left/right setter, merge with a successor (both orders), draw+render "
+        "inside a network behind an active traffic light} with optional queries in between, on 2 base lanes; every "
+        "prefix is a case, the full query set is asked at the end and judged against the lanelet's CURRENT public "
+        "vertices (enlarged by the smallest K in 1,4,16,.. that puts them on the integer grid); plus random longer "
+        "histories that re-ask everything after each step. "
         "distinct_nontrivial = distinct polylines with >= 3 vertices + distinct merge pairs + distinct chains + distinct "
         "(graph, lengths) pairs with at least one edge.")
 ASSUMPTIONS = ["polylines have >= 2 vertices and consecutive vertices are distinct (statement's quantifier); segment "
@@ -278,25 +284,26 @@ def _shape(sn, sd, cum):
     return "interior"
 
 
-def _distance_event(la, c, den, sig, ev):
+def _distance_event(la, c, den, sig, ev, scale=1):
+    """scale: c holds scale * (the lanelet's vertices); returned lengths are multiplied by it before gridding"""
     st, d = _call(lambda: [float(v) for v in la.distance])
-    ev.append({"op": "distance", "sig": sig, "st": st, "c": c, "den": den,
-               "res": [list(_grid(v, den)) for v in d] if st == "ok" else []})
+    ev.append({"op": "distance", "sig": sig, "st": st, "c": c, "den": den, "scale": scale,
+               "res": [list(_grid(v * scale, den)) for v in d] if st == "ok" else []})
 
 
-def _interp_events(pick, c, le, r, sns, sd, den, sigpref, ev):
+def _interp_events(pick, c, le, r, sns, sd, den, sigpref, ev, scale=1):
     """interpolate_position at every arc length sn/sd of sns on the lanelet pick(n); logs what came back."""
     cum = _int_cum(c)
     for n, sn in enumerate(sns):
         obj = pick(n)
         # integral arc lengths are passed alternately as int and as float (both are real numbers)
-        arg = sn // sd if (sn % sd == 0 and n % 2 == 1) else sn / sd
+        arg = sn // sd if (sn % sd == 0 and n % 2 == 1 and scale == 1) else sn / sd / scale
         if sn == sd * cum[-1]:
             # "0 <= s <= length": the full length is the lanelet's own length (after a quarter turn it can differ from
             # the nominal integer by an ulp, and interpolate_position asserts s <= distance[-1])
             try:
                 own = float(obj.distance[-1])
-                if abs(own - sn / sd) <= 1e-9 and own < sn / sd:
+                if abs(own - sn / sd / scale) <= 1e-9 and own < sn / sd / scale:
                     arg = own
             except Exception:
                 pass
@@ -306,14 +313,14 @@ def _interp_events(pick, c, le, r, sns, sd, den, sigpref, ev):
             try:
                 pts = []
                 for p in res[:3]:
-                    kx, ex = _grid(p[0], den)
-                    ky, ey = _grid(p[1], den)
+                    kx, ex = _grid(p[0] * scale, den)
+                    ky, ey = _grid(p[1] * scale, den)
                     pts.append([kx, ky, ex & ey & int(len(p) == 2)])
             except Exception as ex:
                 st, pts = "exc:result:" + type(ex).__name__, [[0, 0, 0]] * 3
         ev.append({"op": "interpolate", "sig": sigpref + (_shape(sn, sd, cum) if sigpref.endswith("/") else ""),
                    "st": st, "c": c, "l": le, "r": r,
-                   "sn": sn, "sd": sd, "den": den, "res": pts})
+                   "sn": sn, "sd": sd, "den": den, "scale": scale, "res": pts})
 
 
 def _exec_poly(case):
@@ -328,44 +335,70 @@ def _exec_poly(case):
     return ev
 
 
-def _as_lanelet_events(m, tag, ev, what="qall"):
-    """A lanelet produced by the library (merge result) is a lanelet: the same distance / interpolate_position
-    events as for any lanelet, judged against ITS OWN vertices.  Emitted only when these vertices are integer points
-    with positive integer segment lengths (otherwise the spec has no exact oracle; the merge event itself carries
-    the vertices).  Arc lengths: 0, every vertex, every segment midpoint, full length (half-integer grid)."""
+_SCALES = (1, 4, 16, 2, 8, 5, 20, 80, 10, 40)
+
+
+def _find_scale(m):
+    """smallest listed K such that K * (the lanelet's current vertices) are integer points with positive integer
+    segment lengths.  Arc length and interpolation are homogeneous, so the spec may judge the K-fold enlarged lanelet:
+    a projection that keeps the oracle exact when a vertex sits on a finer grid (e.g. moved 0.75 along a segment)."""
+    import numpy as np
     try:
-        c, ec = _verts(m.center_vertices)
-        le, el = _verts(m.left_vertices)
-        r, er = _verts(m.right_vertices)
+        arrs = [np.asarray(a, dtype=float) for a in (m.center_vertices, m.left_vertices, m.right_vertices)]
     except Exception:
+        return None
+    if any(a.ndim != 2 or a.shape[1] != 2 or len(a) < 2 or len(a) != len(arrs[0]) or not np.isfinite(a).all()
+           for a in arrs):
+        return None
+    for K in _SCALES:
+        ints = [np.rint(a * K) for a in arrs]
+        if any(np.abs(a * K - i).max() > 1e-9 * K or np.abs(i).max() > 10 ** 6 for a, i in zip(arrs, ints)):
+            continue
+        c = [[int(x), int(y)] for x, y in ints[0]]
+        hs = []
+        for (x0, y0), (x1, y1) in zip(c, c[1:]):
+            d2 = (x1 - x0) ** 2 + (y1 - y0) ** 2
+            h = math.isqrt(d2)
+            if h == 0 or h * h != d2:
+                hs = None
+                break
+            hs.append(h)
+        if hs is None:
+            continue
+        return K, c, [[int(x), int(y)] for x, y in ints[1]], [[int(x), int(y)] for x, y in ints[2]], hs
+    return None
+
+
+def _as_lanelet_events(m, tag, ev, what="qall"):
+    """A lanelet produced or changed by the library is a lanelet: the same distance / interpolate_position events as
+    for any lanelet, judged against ITS OWN current public vertices (scaled by K, see _find_scale).  Emitted only when
+    an exact oracle exists (otherwise nothing is logged here; the preceding merge / mutate event carries the vertices).
+    Arc lengths: 0, every vertex, every segment midpoint, full length (half-integer grid of the scaled lanelet)."""
+    fs = _find_scale(m)
+    if fs is None:
         return
-    if not (ec & el & er) or len(c) < 2 or len(le) != len(c) or len(r) != len(c):
-        return
-    hs = []
-    for (x0, y0), (x1, y1) in zip(c, c[1:]):
-        d2 = (x1 - x0) ** 2 + (y1 - y0) ** 2
-        h = math.isqrt(d2)
-        if h == 0 or h * h != d2:
-            return
-        hs.append(h)
+    K, c, le, r, hs = fs
     sd, den = 2, 2
     for h in hs:
         den = _lcm(den, 2 * h)
+    maxc = max(abs(v) for p in c + le + r for v in p)
+    if (maxc + max(hs)) * 2 * max(hs) * den >= 2 ** 30:
+        return                                         # products would leave TLC's 32-bit integers
     cum = _int_cum(c)
     sns = sorted({2 * v for v in cum} | {2 * cum[k] + hs[k] for k in range(len(hs))})
     isig = "interpolate/" + tag + ("" if tag.startswith("hist/") else "/")   # history sigs: no arc-length shape
     if what == "qi":                                   # one interior interpolation only (fills what it fills)
-        _interp_events(lambda n: m, c, le, r, [2 * cum[0] + hs[0]], sd, den, isig, ev)
+        _interp_events(lambda n: m, c, le, r, [2 * cum[0] + hs[0]], sd, den, isig, ev, scale=K)
         return
-    _distance_event(m, c, den, "distance/" + tag, ev)
+    _distance_event(m, c, den, "distance/" + tag, ev, scale=K)
     if what == "qd":
         return
-    _interp_events(lambda n: m, c, le, r, sns, sd, den, isig, ev)
+    _interp_events(lambda n: m, c, le, r, sns, sd, den, isig, ev, scale=K)
     if tag.startswith("hist/"):
         # inner_distance is not named by the statement: logged (and its cache exercised), never judged
         st, d = _call(lambda: [float(v) for v in m.inner_distance])
         ev.append({"op": "inner_distance", "sig": "inner_distance/" + tag, "st": st, "l": le, "r": r, "den": den,
-                   "res": [list(_grid(v, den)) for v in d] if st == "ok" else []})
+                   "scale": K, "res": [list(_grid(v * K, den)) for v in d] if st == "ok" else []})
 
 
 def _verts(arr):
@@ -439,7 +472,7 @@ def _exec_chain(case):
 # ---- histories: tokens of LaneletGeom.tla (MoveOf / Stretch / SuccLane give them the same meaning there) ----------
 _MOVES = {"mv1": ((1, 2), 1), "mv3": ((-3, 1), 3), "net2": ((2, -1), 2)}      # translation, quarter turns
 _KIND = {"mv1": "move", "mv3": "move", "net2": "netmove", "setc": "set_center", "setl": "set_left",
-         "setr": "set_right", "mrgf": "merge_fwd", "mrgs": "merge_swapped"}
+         "setr": "set_right", "mrgf": "merge_fwd", "mrgs": "merge_swapped", "draw": "draw"}
 _QUERIES = ("qd", "qi", "qall")
 
 
@@ -453,6 +486,38 @@ def _continue(arr):
     import numpy as np
     e = np.array(arr[-1], dtype=float)
     return np.array([e, e + [3.0, 4.0], e + [3.0, 6.0]])
+
+
+def _draw(cur):
+    """draw + render the lanelet under test inside a small network: it is the successor of a lanelet that carries a
+    traffic light with an active cycle (so its center line is coloured).  A read-only operation."""
+    import numpy as np
+    import matplotlib
+    matplotlib.use("Agg")
+    import matplotlib.pyplot as plt
+    from crv import gamma
+    from commonroad.scenario.lanelet import Lanelet, LaneletNetwork
+    from commonroad.visualization.mp_renderer import MPRenderer
+
+    def go():
+        s = np.array(cur.center_vertices[0][:2], dtype=float)
+        pc = np.array([s - [2.0, 0.0], s])
+        pid = 3 if cur.lanelet_id != 3 else 4
+        pre = Lanelet(pc + [0.0, 1.0], pc, pc - [0.0, 1.0], pid, successor=[cur.lanelet_id], traffic_lights={900})
+        net = LaneletNetwork()
+        net.add_lanelet(pre)
+        net.add_lanelet(cur)
+        net.add_traffic_light(gamma.light(900, pos=(float(s[0]), float(s[1])), cycle=(("green", 5), ("red", 5))),
+                              {pid})
+        fig = plt.figure(figsize=(2, 2), dpi=40)
+        try:
+            rnd = MPRenderer(ax=fig.gca())
+            net.draw(rnd)
+            rnd.render()
+        finally:
+            plt.close("all")
+    st, _ = _call(go)
+    return st
 
 
 def _mutate(cur, net, tok):
@@ -471,6 +536,8 @@ def _mutate(cur, net, tok):
             net.add_lanelet(cur)
         st, _ = _call(lambda: net.translate_rotate(np.array([float(tx), float(ty)]), q * math.pi / 2))
         return st, cur, net
+    if tok == "draw":
+        return _draw(cur), cur, net
     if tok == "setc":
         new = _stretch(cur.center_vertices)
         st, _ = _call(lambda: setattr(cur, "center_vertices", new))
@@ -490,6 +557,13 @@ def _mutate(cur, net, tok):
     return st, (m if st == "ok" else cur), net
 
 
+def _snapshot(la):
+    try:
+        return tuple(a.tobytes() for a in (la.center_vertices, la.left_vertices, la.right_vertices))
+    except Exception:
+        return None
+
+
 def _exec_hist(case, every=False):
     """run the history on ONE lanelet object; query tokens ask what they name, and at the end (every=True: after each
     mutation) the full query set is asked.  Queries are judged against the lanelet's CURRENT public vertices."""
@@ -507,8 +581,10 @@ def _exec_hist(case, every=False):
             continue
         if last.startswith("set_"):
             tainted = True
+        before = _snapshot(cur)
         st, cur, net = _mutate(cur, net, tok)
         last = _KIND[tok]
+        changed = int(_snapshot(cur) != before)        # informational (a `draw` must not change them: that is C18's)
         try:
             vc, ec = _verts(cur.center_vertices)
             vl, el = _verts(cur.left_vertices)
@@ -516,7 +592,7 @@ def _exec_hist(case, every=False):
         except Exception:
             vc, vl, vr, ec, el, er = [], [], [], 0, 0, 0
         ev.append({"op": "mutate", "sig": "mutate/" + last, "st": st, "act": tok, "c": vc, "l": vl, "r": vr,
-                   "ex": ec & el & er})
+                   "ex": ec & el & er, "changed": changed})
         if every and k + 1 < len(hist):
             _as_lanelet_events(cur, tag(), ev, what="qall")
     _as_lanelet_events(cur, tag(), ev, what="qall")
